@@ -18,6 +18,22 @@ type c11Case struct {
 	Path string          `json:"path"`
 	Name string          `json:"new_name,omitempty"`
 	Pol  int             `json:"order_policy"`
+	// operations applied (and checked) on the same Map before this one
+	Prefix []c11Op `json:"earlier_operations_on_this_map,omitempty"`
+}
+
+type c11Op struct {
+	Op   string `json:"op"`
+	Path string `json:"path"`
+	Name string `json:"new_name,omitempty"`
+}
+
+// c11Hist: set while a sequence of operations runs on one Map (initial Map and the operations so far).
+var c11Hist *c11HistT
+
+type c11HistT struct {
+	map0 string
+	ops  []c11Op
 }
 
 func init() {
@@ -26,7 +42,15 @@ func init() {
 		json.Unmarshal(cas, &k)
 		m := fromJSON(string(k.Map)).(map[string]interface{})
 		rt.OrderPolicy = k.Pol
+		if len(k.Prefix) > 0 {
+			c11Hist = &c11HistT{map0: string(k.Map)}
+			for _, o := range k.Prefix {
+				c11Check(c, m, o.Op, o.Path, o.Name)
+				c11Hist.ops = append(c11Hist.ops, o)
+			}
+		}
 		c11Check(c, m, k.Op, k.Path, k.Name)
+		c11Hist = nil
 		rt.OrderPolicy = rt.PolicySorted
 	}})
 }
@@ -87,6 +111,9 @@ func c11Check(c *Ctx, m map[string]interface{}, op, path, newName string) (nontr
 	mv := mxj.Map(m)
 	opName := op
 	cas := func() interface{} {
+		if c11Hist != nil {
+			return c11Case{Map: json.RawMessage(c11Hist.map0), Prefix: append([]c11Op(nil), c11Hist.ops...), Op: opName, Path: path, Name: newName, Pol: rt.OrderPolicy}
+		}
 		return c11Case{Map: json.RawMessage(jsonOf(before)), Op: opName, Path: path, Name: newName, Pol: rt.OrderPolicy}
 	}
 	keys := strings.Split(path, ".")
@@ -163,6 +190,10 @@ func c11Check(c *Ctx, m map[string]interface{}, op, path, newName string) (nontr
 			// documented no-op: parent value is null
 			pv, perr := mxj.Map(before).ValueForPath(strings.Join(keys[:len(keys)-1], "."))
 			if len(keys) > 1 && perr == nil && pv == nil {
+				return false
+			}
+			// the entry already held an equal value (reached in operation sequences)
+			if sp != nil && strict && lastPresent && deepEq(sp[last], newV) {
 				return false
 			}
 			c.Violate(api, "no-effect", shape, cas, nil, detail("returned nil but nothing was set and the parent is not null"))
@@ -250,7 +281,7 @@ func c11Check(c *Ctx, m map[string]interface{}, op, path, newName string) (nontr
 
 func c11Run(c *Ctx) {
 	mustBeDefault(c)
-	c.S.Rule = "cases = (Map, operation, path[, new name]): every Map template with <= N nodes over keys {a,ab,k}, leaves {string, null}, no empty lists; operations SetValueForPath (string, map and list values) / Remove / RenameKey; all dot-paths of 1..3 segments over {a,b,k,z}; new names {a,b,k,z}. Oracle on a deep copy taken before the call: on error the Map is unchanged (structural diff and write monitor on the frozen receiver); on success exactly one entry set / removed / moved within its map plus the stated post-condition; applicable operations on the nested-map domain must succeed; rename onto an existing sibling (incl. top level and null-valued siblings) must be refused. Ascending and descending map order. non-trivial = the operation succeeded and changed the Map."
+	c.S.Rule = "cases = (Map, operation, path[, new name]): every Map template with <= N nodes over keys {a,ab,k}, leaves {string, null}, no empty lists; operations SetValueForPath (string, map and list values) / Remove / RenameKey; all dot-paths of 1..3 segments over {a,b,k,z}; new names {a,b,k,z}. Oracle on a deep copy taken before the call: on error the Map is unchanged (structural diff and write monitor on the frozen receiver); on success exactly one entry set / removed / moved within its map plus the stated post-condition; applicable operations on the nested-map domain must succeed; rename onto an existing sibling (incl. top level and null-valued siblings) must be refused. Ascending and descending map order. Plus every sequence of 3 operations (set / remove / rename to z / rename to ab on paths {a, ab, a.ab, a.ab.k, z}) on one Map, for every nested-map template with <= 4 nodes, with the same oracle at every step. non-trivial = the operation succeeded and changed the Map."
 	c.S.Assumptions = []string{"SetValueForPath below a null parent is the documented no-op"}
 	n := 5
 	if c.Thorough {
@@ -282,6 +313,49 @@ func c11Run(c *Ctx) {
 				}
 				rt.OrderPolicy = rt.PolicySorted
 			}
+		}
+	})
+	// operation sequences on one Map (states other than freshly built ones): every sequence of 3 operations
+	// from a reduced alphabet on every nested-map template, the oracle applied at every step
+	gs := newGen(GenP{Keys: []string{"a", "ab", "k"}, MaxList: 0, MaxKeys: 2, EmptyMap: true, Leaves: []interface{}{"v"}})
+	var alpha []c11Op
+	for _, p := range []string{"a", "ab", "a.ab", "a.ab.k", "z"} {
+		alpha = append(alpha, c11Op{"set", p, ""}, c11Op{"remove", p, ""}, c11Op{"rename", p, "z"}, c11Op{"rename", p, "ab"})
+	}
+	ns := 4
+	if c.Thorough {
+		ns = 5
+	}
+	gs.rootMaps(ns, func(t *T) {
+		map0 := jsonOf(inst(t, nil))
+		for _, o1 := range alpha {
+			for _, o2 := range alpha {
+				for _, o3 := range alpha {
+					if !c.Mine() {
+						continue
+					}
+					c.S.States++
+					c.S.Evaluations++
+					m := inst(t, nil).(map[string]interface{})
+					c11Hist = &c11HistT{map0: map0}
+					any := false
+					for _, o := range []c11Op{o1, o2, o3} {
+						if c11Check(c, m, o.Op, o.Path, o.Name) {
+							any = true
+						}
+						c11Hist.ops = append(c11Hist.ops, o)
+					}
+					c11Hist = nil
+					c.S.Schedules++
+					c.S.Validated++
+					if any {
+						c.S.Nontrivial++
+					}
+				}
+			}
+		}
+		if c.Shard == 0 {
+			c.Count("sequence_start_maps", 1)
 		}
 	})
 }
